@@ -30,6 +30,7 @@ def make_case(r, n_pkts_max=40):
     style = r.random()
     steps = r.randrange(5, 120)
     dead = False
+    two_readers = r.random() < 0.3
     for _ in range(steps):
         k = r.random()
         if dead:
@@ -56,7 +57,8 @@ def make_case(r, n_pkts_max=40):
         elif k < 0.72:
             ops.append("rx flush")
         elif k < 0.93:
-            ops.append(f"rx read {r.choice([0, 1, 2, 3, max_payload, 2 * max_payload, 1000])}")
+            # (now and then the read half is polled by a second task: waker B)
+            ops.append(f"rx {'readb' if two_readers and r.random() < 0.4 else 'read'} {r.choice([0, 1, 2, 3, max_payload, 2 * max_payload, 1000])}")
         elif k < 0.95:
             ops.append("rx dropr")
         elif k < 0.97:
@@ -109,6 +111,7 @@ def oracle_rx(P):
         stream = {}        # ghost index -> bytes sent
         fin_at = None
         reader_waiting = False   # a read returned Pending (reader waker registered) and no reader wake since
+        last_reader = None
         got_eof = False
         respecting = True        # every arrival so far fitted the window advertised just before it
         last_win = None
@@ -176,7 +179,7 @@ def oracle_rx(P):
                         f"after `{op[:60]}` the receiver has consumed {consumed} sequence numbers but holds the contiguous prefix {want}")
                 if int(kv.get("rw", 0)) == 0 and reader_waiting and False:
                     pass
-            elif t[1] == "read":
+            elif t[1] in ("read", "readb"):
                 if reader_waiting and int(t[2]) > 0 and res != "pending":
                     hit("reader_lost_wakeup", f"a reader that was told Pending was never woken although `{op}` now returns `{res[:40]}`")
                     reader_waiting = False
@@ -203,7 +206,19 @@ def oracle_rx(P):
                     reader_waiting = True
                 if got_eof and res.startswith("data:"):
                     hit("data_after_eof", f"{op} -> {out}")
-            if int(kv.get("rw", "0")) > 0:
+            # the task that polled last and was told Pending is the one that must be woken
+            if t[1] in ("read", "readb") and res == "pending" and int(t[2]) > 0:
+                last_reader = "rwb" if t[1] == "readb" else "rw"
+            elif t[1] in ("read", "readb") and res.startswith("data:"):
+                # (a read that copies data and then finds the queue empty registers its waker too; whether it did
+                # is not visible from outside: whose turn it is is then unknown, and not judged)
+                last_reader = None
+            nrw, nrwb = int(kv.get("rw", "0")), int(kv.get("rwb", "0"))
+            if (nrw or nrwb) and last_reader and int(kv.get(last_reader, "0")) == 0:
+                hit("stale_reader_woken", f"`{op[:50]}` woke a reader task that is no longer waiting (rw={nrw} rwb={nrwb}) instead of the task that polled last and was told Pending ({'B' if last_reader == 'rwb' else 'A'}): that task sleeps on although its data has arrived")
+            if nrw or nrwb:
+                last_reader = None
+            if int(kv.get("rw", "0")) > 0 or int(kv.get("rwb", "0")) > 0:
                 reader_waiting = False
             # window honesty and SACK exactness on every line that reports them
             if "win" in kv and cap is not None:
